@@ -805,3 +805,301 @@ def exposed_api(emu, documented):
         elif hasattr(pkg, nm) and (nm in pkg.__all__):
             out.append(nm)
     return out
+
+
+# ------------------------------------------------------------------ C sources: the Py_BuildValue CALL itself (round 2)
+#
+# `c_slot_labels` above reads the `// label` comments. The functions below parse the call: format string(s) and the
+# argument expressions, after the mini preprocessor selected the identity's branch. A swapped C argument changes
+# `nativeArgs`; theorem C20_native_slot_order compares argument i with the C expression the reviewed table
+# `Spec.slotCExpr` gives for the slot the Python map puts at index i.
+
+_CAST = re.compile(r"^\(\s*(?:unsigned\s+)?(?:int|long\s+long|long|float|double|pid_t|short|char)\s*\)\s*")
+_FMT_UNITS = set("OilLdkKIbBhHsNfn")
+
+
+def _strip_c_comments(txt):
+    txt = re.sub(r"/\*.*?\*/", " ", txt, flags=re.S)
+    return re.sub(r"//[^\n]*", " ", txt)
+
+
+def _balanced_call(txt, start):
+    """text between the parenthesis opened at txt[start] and its match (string literals respected)"""
+    assert txt[start] == "("
+    depth, i, n = 0, start, len(txt)
+    while i < n:
+        ch = txt[i]
+        if ch == '"':
+            j = i + 1
+            while j < n and txt[j] != '"':
+                j += 2 if txt[j] == "\\" else 1
+            i = j + 1
+            continue
+        if ch == "(":
+            depth += 1
+        elif ch == ")":
+            depth -= 1
+            if depth == 0:
+                return txt[start + 1:i]
+        i += 1
+    raise NotRecognised("unbalanced Py_BuildValue call")
+
+
+def _split_top(args):
+    out, depth, cur, i, n = [], 0, [], 0, len(args)
+    while i < n:
+        ch = args[i]
+        if ch == '"':
+            j = i + 1
+            while j < n and args[j] != '"':
+                j += 2 if args[j] == "\\" else 1
+            cur.append(args[i:j + 1])
+            i = j + 1
+            continue
+        if ch in "([{":
+            depth += 1
+        elif ch in ")]}":
+            depth -= 1
+        if ch == "," and depth == 0:
+            out.append("".join(cur))
+            cur = []
+        else:
+            cur.append(ch)
+        i += 1
+    out.append("".join(cur))
+    return [a.strip() for a in out if a.strip()]
+
+
+def c_buildvalue(pkg_dir, rel, func, defines, nth=0):
+    """(format units, [argument expression]) of the nth Py_BuildValue call inside C function `func` of file `rel`,
+    under the identity's defines. Expressions are normalised: comments dropped, one leading cast dropped, no blanks.
+    The number of format units must equal the number of arguments."""
+    with open(os.path.join(pkg_dir, rel), encoding="utf-8") as f:
+        lines = E.cpp_active_lines(f.read(), defines)
+    txt = "\n".join(lines)
+    m = re.search(r"^%s\s*\(" % re.escape(func), txt, re.M)
+    if not m:
+        raise NotRecognised("%s not found in %s" % (func, rel))
+    rest = txt[m.start():]
+    nxt = re.search(r"^\}", rest, re.M)          # end of the function body
+    body = _strip_c_comments(rest[:nxt.end()] if nxt else rest)
+    pos = -1
+    for _ in range(nth + 1):
+        pos = body.find("Py_BuildValue(", pos + 1)
+        if pos < 0:
+            raise NotRecognised("Py_BuildValue #%d not found in %s" % (nth, func))
+    parts = _split_top(_balanced_call(body, pos + len("Py_BuildValue")))
+    if len(parts) < 2:
+        raise NotRecognised("Py_BuildValue of %s has no arguments" % func)
+    units = []
+    for tok in re.findall(r'"[^"]*"|\w+', parts[0]):
+        if tok.startswith('"'):
+            s = tok[1:-1].strip()
+            if s.startswith("(") and s.endswith(")"):
+                s = s[1:-1]
+            for ch in s:
+                if ch not in _FMT_UNITS:
+                    raise NotRecognised("format unit %r in %s" % (ch, func))
+                units.append(ch)
+        elif tok == "_Py_PARSE_PID":
+            units.append("P")
+        else:
+            raise NotRecognised("format token %r in %s" % (tok, func))
+    exprs = []
+    for a in parts[1:]:
+        a = _CAST.sub("", " ".join(a.split()))
+        exprs.append(re.sub(r"\s+", "", a))
+    if len(units) != len(exprs):
+        raise NotRecognised("%s: %d format units for %d arguments" % (func, len(units), len(exprs)))
+    return "".join(units), exprs
+
+
+# native tuples unpacked positionally by the Python side (no slot map): (native function, identity) -> (C file, C function)
+C_TUPLES = {
+    ("proc_cred", "sunos"): ("_psutil_sunos.c", "psutil_proc_cred"),
+    ("proc_cpu_times", "sunos"): ("_psutil_sunos.c", "psutil_proc_cpu_times"),
+    ("proc_num_ctx_switches", "sunos"): ("_psutil_sunos.c", "psutil_proc_num_ctx_switches"),
+    ("proc_cred", "aix"): ("_psutil_aix.c", "psutil_proc_cred"),
+    ("proc_cpu_times", "aix"): ("_psutil_aix.c", "psutil_proc_cpu_times"),
+    ("proc_num_ctx_switches", "aix"): ("_psutil_aix.c", "psutil_proc_num_ctx_switches"),
+    ("proc_io_counters", "aix"): ("_psutil_aix.c", "psutil_proc_io_counters"),
+    ("proc_times", "windows"): ("arch/windows/proc.c", "psutil_proc_times"),
+    ("proc_memory_info", "windows"): ("arch/windows/proc.c", "psutil_proc_memory_info"),
+    ("proc_io_counters", "windows"): ("arch/windows/proc.c", "psutil_proc_io_counters"),
+}
+# the Python name under which the stub native of a one-shot C function is called
+ONESHOT_PYNAME = {"bsd.kinfo_proc_map": "proc_oneshot_info", "osx.kinfo_proc_map": "proc_kinfo_oneshot",
+                  "osx.pidtaskinfo_map": "proc_pidtaskinfo_oneshot", "sunos.proc_info_map": "proc_basic_info",
+                  "aix.proc_info_map": "proc_basic_info", "windows.pinfo_map": "proc_info"}
+
+
+def native_args(pkg_dir):
+    """[((key, ident), format units, [C expression])] for every one-shot record and every positional native tuple"""
+    out = []
+    for key, (rel, fn, _) in sorted(C_ONESHOT.items()):
+        fam = key.split(".")[0]
+        for ident in [i for i in E.IDENTS if FAMILY[i] == fam]:
+            u, ex = c_buildvalue(pkg_dir, rel, fn, E.DEFINES[ident])
+            out.append(((key, ident), u, ex))
+    for (name, ident), (rel, fn) in sorted(C_TUPLES.items()):
+        u, ex = c_buildvalue(pkg_dir, rel, fn, E.DEFINES[ident])
+        out.append(((name, ident), u, ex))
+    return out
+
+
+def stub_record_lens(emus):
+    """[((key, ident), length of the tuple the emulator's STUB native hands back)] — measured by calling the stub"""
+    out = []
+    todo = []
+    for key in sorted(C_ONESHOT):
+        fam = key.split(".")[0]
+        for ident in [i for i in E.IDENTS if FAMILY[i] == fam]:
+            todo.append(((key, ident), ONESHOT_PYNAME[key], ident))
+    for (name, ident) in sorted(C_TUPLES):
+        todo.append(((name, ident), name, ident))
+    for k, pyname, ident in todo:
+        emu = emus[ident]
+        fn = getattr(emu.mod.cext, pyname, None)
+        if fn is None:
+            raise NotRecognised("stub native %s missing under %s" % (pyname, ident))
+        obs, _ = emu.call(lambda: len(fn(42, E.PROCFS)) if ident in ("sunos", "aix") and pyname != "proc_io_counters"
+                          else len(fn(42)))
+        if obs["kind"] != "value":
+            raise NotRecognised("stub native %s under %s: %r" % (pyname, ident, obs))
+        out.append((k, obs["value"]))
+    return out
+
+
+# ------------------------------------------------------------------ docs: namedtuple FIELDS per platform (round 2)
+
+_DIR = re.compile(r"^(\s*)\.\. (function|class|data|method|attribute)::\s*([A-Za-z_][\w.]*)(.*)$")
+_BULLET = re.compile(r"^\s*[-*] \*\*(\w+)\*\*\s*:?\s*(?:\*?\(([^)]*)\)\*?)?")
+_EXAMPLE = re.compile(r"\b([sp][a-z_]+)\((\w+)=")
+# the docs' example of the system-wide net_connections() prints `pconn(…, pid=…)`; the type the function really
+# returns (and the one that has the documented `pid` field) is `sconn`
+DOC_TYPE_OVERRIDE = {"net_connections": "sconn"}
+
+
+def _grid_tables(body):
+    """[[header cells], [[row cells]…]] for every reST grid table in the lines of `body`"""
+    out, i, n = [], 0, len(body)
+    while i < n:
+        if re.match(r"^\s*\+[-+]+\+\s*$", body[i]):
+            rows = []
+            j = i
+            while j < n and re.match(r"^\s*[+|]", body[j]):
+                if body[j].strip().startswith("|"):
+                    rows.append([c.strip() for c in body[j].strip().strip("|").split("|")])
+                j += 1
+            if rows:
+                out.append((rows[0], rows[1:]))
+            i = j
+        else:
+            i += 1
+    return out
+
+
+def documented_fields(index_rst):
+    """ident -> [(api name, namedtuple type named by the doc's example, [field…], ordered?)].
+    Two sources inside the body of a `.. function::` / `.. method::` (class Process) directive:
+      * bullets `- **field** *(Linux, BSD)*: …` (no order promised; no platform note = every platform),
+      * a grid table whose header cells are platform names: one ORDERED column of field names per platform.
+    The namedtuple type is the one the doc's own example output shows (`scputimes(user=…`)."""
+    lines = index_rst.split("\n")
+    n = len(lines)
+    entries = []      # (api, nt, kind, payload)
+    cur_class = None
+    i = 0
+    while i < n:
+        m = _DIR.match(lines[i])
+        if not m:
+            i += 1
+            continue
+        indent, kind, name = len(m.group(1)), m.group(2), m.group(3)
+        if kind == "class" and indent == 0:
+            cur_class = name
+        elif indent == 0:
+            cur_class = None
+        if kind not in ("function", "method") or (kind == "method" and cur_class != "Process"):
+            i += 1
+            continue
+        k = i + 1
+        body = []
+        while k < n:
+            m2 = _DIR.match(lines[k])
+            if m2 and len(m2.group(1)) <= indent:
+                break
+            if re.match(r"^\.\. _", lines[k]) or re.match(r"^[=\-~^]{4,}\s*$", lines[k]):
+                break
+            body.append(lines[k])
+            k += 1
+        api = ("Process." + name) if kind == "method" else name
+        nt = None
+        for b in body:
+            me = _EXAMPLE.search(b) if not b.lstrip().startswith(("-", "..", "* ")) else None
+            if me:
+                nt = me.group(1)
+                break
+        nt = DOC_TYPE_OVERRIDE.get(api, nt)
+        bullets = []
+        for b in body:
+            mb = _BULLET.match(b)
+            if mb:
+                note = mb.group(2)
+                av = None
+                if note is not None:
+                    named = _avail_strict(note)
+                    if re.match(r"\s*all except\b", note):
+                        av = set(E.IDENTS) - named
+                    elif named or re.search(r"\blinux\b", note, re.I):
+                        av = named
+                bullets.append((mb.group(1), av))
+        tables = []
+        for hdr, rows in _grid_tables(body):
+            cols = [_avail_strict(h) if h.lower() != "linux" else set() for h in hdr]
+            if all(h.lower() == "linux" or c for h, c in zip(hdr, cols)):
+                tables.append((hdr, cols, rows))
+        if nt and (bullets or tables):
+            entries.append((api, nt, bullets, tables))
+        i += 1
+    out = {}
+    for ident in E.IDENTS:
+        rows = []
+        for api, nt, bullets, tables in entries:
+            if tables:
+                for hdr, cols, trs in tables:
+                    for ci, c in enumerate(cols):
+                        if ident in c:
+                            fl = []
+                            for r in trs:
+                                cell = r[ci] if ci < len(r) else ""
+                                mf = re.match(r"^(\w+)", cell)
+                                if mf:
+                                    fl.append(mf.group(1))
+                            rows.append((api, nt, fl, True))
+            fl = [f for f, a in bullets if a is None or ident in a]
+            if bullets:
+                rows.append((api, nt, fl, False))
+        out[ident] = rows
+    if sum(len(v) for v in out.values()) < 20:
+        raise NotRecognised("docs/index.rst: only %d documented field lists recognised" % sum(len(v) for v in out.values()))
+    return out
+
+
+def _avail_strict(text):
+    """platform identities named in a `*(Linux, BSD)*` note / table header (version numbers ignored)"""
+    out = set()
+    for tok in re.findall(r"[A-Za-z]+", text):
+        t = tok.lower()
+        if t in PLAT_TOKENS:
+            out.update(PLAT_TOKENS[t])
+    return out
+
+
+def actual_fields(emu, nt):
+    """runtime `_fields` of the namedtuple type `nt` as the package imported as this identity defines it"""
+    for mod in (emu.mod, emu.common, emu.pkg):
+        v = getattr(mod, nt, None)
+        if isinstance(v, type) and issubclass(v, tuple) and hasattr(v, "_fields"):
+            return list(v._fields)
+    return None
